@@ -45,6 +45,21 @@ def numeric_deviations(base: dict):
                                                                         R.shape("Gaussian", base["inputs"][min(1, len(base["inputs"]) - 1)]["terms"][0]["name"], [v, 0.25]))))
         out.append(("number", f"in0.term1=Discrete(0,{v!r},...)", D._set(("inputs", 0, "terms", 1),
                                                                         R.shape("Discrete", base["inputs"][0]["terms"][1]["name"], [0.0, v, 1.0, 0.5], 0.75))))
+    for h in (2.0, 1.5, 1.0009, 1e-300):
+        out.append(("number", f"in0.term0.height={h!r}", D._set(("inputs", 0, "terms", 0, "height"), h)))
+        out.append(("number", f"out0.term1.height={h!r}", lambda r, h=h: r["outputs"][0]["terms"][-1].__setitem__("height", h)))
+    # sizes beyond reprlib's default limits (6 list items, 4 dict items, 30 characters, 40 digits)
+    def many_terms(r):
+        r["inputs"][0]["terms"] += [R.shape("Triangle", f"t{k}", [k / 8, k / 8 + 0.125, k / 8 + 0.25]) for k in range(9)]
+    out.append(("size", "in0.terms+=9", many_terms))
+    def many_rules(r):
+        base_rule = r["blocks"][0]["rules"][0]
+        r["blocks"][0]["rules"] += [dict(base_rule, weight=f"0.{k}00") for k in range(1, 9)]
+    out.append(("size", "block0.rules+=8", many_rules))
+    out.append(("size", "in0.term1=Discrete(12 pairs)", D._set(("inputs", 0, "terms", 1), R.shape(
+        "Discrete", base["inputs"][0]["terms"][1]["name"], [v for k in range(12) for v in (k / 11, (k % 3) / 2)], 0.5))))
+    out.append(("size", "engine.description=long", D._set(("description",), "a long description " * 20)))
+    out.append(("size", "out0.description=long", D._set(("outputs", 0, "description"), "0123456789" * 12)))
     for text in ("it's", 'say "hi"', "back\\slash", "tab\there", "#hash: colon"):
         out.append(("quotes", f"engine.description={text!r}", D._set(("description",), text)))
         out.append(("quotes", f"in0.description={text!r}", D._set(("inputs", 0, "description"), text)))
@@ -159,6 +174,11 @@ def standalone_components():
         out += [("term", fl.Constant("k", v)), ("term", fl.Linear("l", [v, 1.0])), ("term", fl.Triangle("t", v, 0.5, 1.0, 0.5)),
                 ("term", fl.Gaussian("g", 0.0, v)), ("activated", fl.Activated(fl.Triangle("t", 0.0, 0.5, 1.0), v if v == v and 0 <= v <= 1 else 0.25, fl.Minimum()))]
     out.append(("term", fl.Function("f", "2*a + x", variables={"y": 1 / 3})))
+    out.append(("term", fl.Function("f", "a + b + c + d + e + g", variables={k: (n + 1) / 7 for n, k in enumerate("abcdeg")})))
+    out.append(("term", fl.Linear("l", [k / 7 for k in range(12)])))
+    out.append(("term", fl.Discrete("d", fl.Discrete.to_xy([k / 11 for k in range(12)], [(k % 3) / 2 for k in range(12)]), 0.5)))
+    out.append(("engine-variable", fl.InputVariable("v", "long " * 40, True, 0.0, 1.0, False, [fl.Triangle(f"t{k}", 0.0, k / 9, 1.0) for k in range(9)])))
+    out += [("term", fl.Triangle("t", 0.0, 0.5, 1.0, h)) for h in (2.0, 1.5, 1.0009)]
     out.append(("aggregated", fl.Aggregated("o", -1.0, 1 / 3, fl.Maximum(), [fl.Activated(fl.Constant("k", 1.5), 0.5, fl.AlgebraicProduct())])))
     out.append(("aggregated", fl.Aggregated("o", NAN, INF, None, [])))
     out.append(("engine-variable", fl.InputVariable("v", "it's a \"quoted\" \\ description", False, -INF, 1 / 3, True, [fl.Ramp("r", 1 / 3, 0.0)])))
@@ -219,7 +239,7 @@ def run_shard(tier: str, seed: int, shard: int):
             recipe = D.apply(base, fns)
             acc.states += 1
             acc.cls(f"group_{group}")
-            heavy = group in ("base", "number", "quotes", "disabled-rule") or tier == "thorough"
+            heavy = group in ("base", "number", "quotes", "disabled-rule", "size") or tier == "thorough"
             aliases = ALIASES if heavy else [ALIASES[idx % 4]]
             acc.guard({"label": label, "group": group, "recipe": recipe}, run_recipe, acc, group, f"{base['name']}:{label}", recipe, aliases, group == "base")
         if shard == bi + 8:
